@@ -60,6 +60,7 @@ types = [
         field("items", arr(ref("Inner")), optional=True),
         field("attrs", mp(ref("Inner")), optional=True),
         field("free", prim("string")),
+        field("audit", ref("Inner"), optional=True),
     ]),
     record("KeyPart", [field("a", prim("string")), field("b", prim("int64"))]),
     record("ParamPart", [field("p", prim("string"), optional=True), field("q", prim("int32"), optional=True)]),
@@ -123,7 +124,7 @@ resources = [
     resource("fam.holders", [("holders", ("id", prim("string")))], ref("Holder"), [m("get", True), m("create", False), m("update", True), m("batch_get", False), m("get_all", False)]),
     resource("fam.annotated", [("annotated", ("id", prim("int64")))], ref("Annotated"),
         [m("get", True), m("create", False), m("batch_create", False), m("update", True), m("batch_update", False), m("partial_update", True), m("batch_partial_update", False)],
-        ro=["id", "inner/b", "items/*/b"], co=["created", "attrs/*/a"]),
+        ro=["id", "inner/b", "items/*/b", "audit"], co=["created", "attrs/*/a"]),
 ]
 
 manifest = {"packageRoot": ROOT, "inputDataTypes": types, "dependencyDataTypes": [], "resources": resources}
